@@ -387,14 +387,14 @@ def run(tier, seed):
     run_parallel(c, 'bounded.c06', 'check_keywords', ((s, k) for s in STYLESHEET_SYNTAXES for k in bk[s]), chunk=20)
     out.append(c.done())
 
-    osyn = ['css', 'stylus'] if quick else STYLESHEET_SYNTAXES
+    osyn = ['css'] if quick else STYLESHEET_SYNTAXES
     c = Clause('user-override-builtin', 'F', 'every built-in key overridden by a one-entry user table', '%d keys x syntaxes %r x user bodies %r'
                % (nkeys, osyn, OVERRIDES), 'a case is (syntax, key, user body): expand(key) must be the user snippet, not the built-in one',
                exhaustive=True)
     run_parallel(c, 'bounded.c06', 'check_override', ((s, k, b) for s in osyn for k in bk[s] for b in OVERRIDES), chunk=40)
     out.append(c.done())
 
-    n = 1800 if quick else 60000
+    n = 1200 if quick else 60000
     c = Clause('user-tables', 'B', 'random.Random(seed) user snippet tables: 1..6 entries, 45% overriding a built-in key, else a new key of 1..7 letters '
                '(15% with @ prefix, 15% camelCase); 60% property kind (name, 0..4 values from a pool) / 40% raw bodies',
                '%d tables, seed %d, syntax cycling through %r, scope random in none/@@global/@@section/@@property' % (n, seed, STYLESHEET_SYNTAXES),
